@@ -54,7 +54,7 @@
 (*                       until Close                                        *)
 (*             = TRUE    INTENDED: the call gives up with a timeout error   *)
 (***************************************************************************)
-EXTENDS Naturals, FiniteSets, Sequences, TLC
+EXTENDS Naturals, FiniteSets, Sequences, Bags, TLC
 
 CONSTANTS Clients,     \* set of strings
           MaxReq,      \* RequestAndRecv calls per client
@@ -64,18 +64,20 @@ CONSTANTS Clients,     \* set of strings
           KeyCheck,    \* TRUE; FALSE = broken instance
           Timeout      \* FALSE | TRUE
 
-VARIABLES nid,     \* datagram id counter
-          qnet,    \* query datagrams in flight  [id, src, kind, key]
-          hs,      \* responder goroutines in progress [id, src, kind, key, pc]
-          rnet,    \* response datagrams in flight [id, dst, rc, key, qid]
+\* Datagrams carry no model identifier: copies of one datagram are indistinguishable on the wire, so the network and the
+\* responder's goroutines are BAGS of records (a datagram is named by its content in every action and observation).
+VARIABLES qnet,    \* bag of query datagrams in flight  [src, kind, key]
+          hs,      \* bag of responder goroutines in progress [src, kind, key, pc]
+          rnet,    \* bag of response datagrams in flight [dst, rc, key]
           cq,      \* per client: the requester's receive queue, Seq([rc, key])
           cpc,     \* per client: "idle" | "wait" | "closed"
           cn,      \* per client: requests issued
           cres,    \* per client: results, one per finished request [r, key]
+          jk,      \* classes of the junk queries sent so far (junk query j has key [c |-> "x", n |-> j])
           ncalls,  \* per key: callback invocations
           ndeliv,  \* per key: query copies the responder received
-          fin,     \* finished handlers [qid, kind, nresp]
-          njunk, ndup, ndrop, nclose,
+          nresp,   \* per key: responses the responder sent
+          ndup, ndrop, nclose,
           obs
 
 X == "x"
@@ -99,34 +101,38 @@ NoneKinds == {"isresp",               \* QR = 1: ignored silently
 AllKinds == CbKinds \cup ErrKinds \cup NoneKinds
 RC(k) == IF k = "good" THEN "NOERROR" ELSE ErrRC[k]
 Expected(k) == IF k = "good" \/ k \in ErrKinds THEN 1 ELSE 0
+KindOf(k) == IF k.c \in Clients THEN "good" ELSE jk[k.n]
 
-vars == <<nid, qnet, hs, rnet, cq, cpc, cn, cres, ncalls, ndeliv, fin, njunk, ndup, ndrop, nclose, obs>>
-view == <<nid, qnet, hs, rnet, cq, cpc, cn, cres, ncalls, ndeliv, fin, njunk, ndup, ndrop, nclose>>
+vars == <<qnet, hs, rnet, cq, cpc, cn, cres, jk, ncalls, ndeliv, nresp, ndup, ndrop, nclose, obs>>
+view == <<qnet, hs, rnet, cq, cpc, cn, cres, jk, ncalls, ndeliv, nresp, ndup, ndrop, nclose>>
 
+One(e) == SetToBag({e})
 RECURSIVE SumF(_, _)
 SumF(f, S) == IF S = {} THEN 0 ELSE LET x == CHOOSE y \in S : TRUE IN f[x] + SumF(f, S \ {x})
+CountPc(h, pc) == LET S == {x \in BagToSet(h) : x.pc = pc} IN SumF([x \in S |-> CopiesIn(x, h)], S)
 
 \* projection shared with the Go driver: what the relay / the gates can see
-Proj(q, h, r, nc) == [q |-> Cardinality(q), r |-> Cardinality(r),
-                      cb |-> Cardinality({x \in h : x.pc = "cb"}), snd |-> Cardinality({x \in h : x.pc = "send"}),
+Proj(q, h, r, nc) == [q |-> BagCardinality(q), r |-> BagCardinality(r),
+                      cb |-> CountPc(h, "cb"), snd |-> CountPc(h, "send"),
                       calls |-> SumF(nc, AllKeys)]
 
-Init == /\ nid = 0 /\ qnet = {} /\ hs = {} /\ rnet = {} /\ fin = {}
+Init == /\ qnet = EmptyBag /\ hs = EmptyBag /\ rnet = EmptyBag
         /\ cq = [c \in Clients |-> <<>>] /\ cpc = [c \in Clients |-> "idle"]
         /\ cn = [c \in Clients |-> 0] /\ cres = [c \in Clients |-> <<>>]
-        /\ ncalls = [k \in AllKeys |-> 0] /\ ndeliv = [k \in AllKeys |-> 0]
-        /\ njunk = 0 /\ ndup = 0 /\ ndrop = 0 /\ nclose = 0
+        /\ jk = <<>>
+        /\ ncalls = [k \in AllKeys |-> 0] /\ ndeliv = [k \in AllKeys |-> 0] /\ nresp = [k \in AllKeys |-> 0]
+        /\ ndup = 0 /\ ndrop = 0 /\ nclose = 0
         /\ obs = [a |-> "Init"]
 
 \* ------------------------------- clients --------------------------------
 Request(c) ==
   /\ cpc[c] = "idle" /\ cn[c] < MaxReq
   /\ LET n == cn[c] + 1
-         q2 == qnet \cup {[id |-> nid + 1, src |-> c, kind |-> "good", key |-> K(c, n)]} IN
-     /\ nid' = nid + 1 /\ qnet' = q2
+         q2 == qnet (+) One([src |-> c, kind |-> "good", key |-> K(c, n)]) IN
+     /\ qnet' = q2
      /\ cn' = [cn EXCEPT ![c] = n] /\ cpc' = [cpc EXCEPT ![c] = "wait"]
-     /\ obs' = [a |-> "Request", c |-> c, n |-> n, new |-> nid + 1, st |-> Proj(q2, hs, rnet, ncalls)]
-  /\ UNCHANGED <<hs, rnet, cq, cres, ncalls, ndeliv, fin, njunk, ndup, ndrop, nclose>>
+     /\ obs' = [a |-> "Request", c |-> c, n |-> n, st |-> Proj(q2, hs, rnet, ncalls)]
+  /\ UNCHANGED <<hs, rnet, cq, cres, jk, ncalls, ndeliv, nresp, ndup, ndrop, nclose>>
 
 Own(c, h) == h.rc = "NOERROR" /\ (h.key = K(c, cn[c]) \/ ~KeyCheck)
 
@@ -145,7 +151,7 @@ Return(c) ==
                /\ obs' = [a |-> "Return", c |-> c, n |-> cn[c], r |-> "err", body |-> NoKey]
           ELSE /\ UNCHANGED <<cres, cpc>>
                /\ obs' = [a |-> "Skip", c |-> c, n |-> cn[c]]
-  /\ UNCHANGED <<nid, qnet, hs, rnet, cn, ncalls, ndeliv, fin, njunk, ndup, ndrop, nclose>>
+  /\ UNCHANGED <<qnet, hs, rnet, cn, jk, ncalls, ndeliv, nresp, ndup, ndrop, nclose>>
 
 \* intended only: the call gives up
 TimeoutRet(c) ==
@@ -153,7 +159,7 @@ TimeoutRet(c) ==
   /\ cres' = [cres EXCEPT ![c] = Append(@, [r |-> "timeout", key |-> NoKey])]
   /\ cpc' = [cpc EXCEPT ![c] = "idle"]
   /\ obs' = [a |-> "TimeoutRet", c |-> c, n |-> cn[c]]
-  /\ UNCHANGED <<nid, qnet, hs, rnet, cq, cn, ncalls, ndeliv, fin, njunk, ndup, ndrop, nclose>>
+  /\ UNCHANGED <<qnet, hs, rnet, cq, cn, jk, ncalls, ndeliv, nresp, ndup, ndrop, nclose>>
 
 \* Requester.Close.  A waiting call whose queue is non-empty has in reality already returned (Return is only
 \* reported later), so Close is not offered then.  Close before the first request is not modelled (r.transport is nil).
@@ -165,118 +171,122 @@ Close(c) ==
   /\ cq' = [cq EXCEPT ![c] = <<>>]
   /\ cres' = IF cpc[c] = "wait" THEN [cres EXCEPT ![c] = Append(@, [r |-> "closed", key |-> NoKey])] ELSE cres
   /\ obs' = [a |-> "Close", c |-> c, unblocked |-> (cpc[c] = "wait")]
-  /\ UNCHANGED <<nid, qnet, hs, rnet, cn, ncalls, ndeliv, fin, njunk, ndup, ndrop>>
+  /\ UNCHANGED <<qnet, hs, rnet, cn, jk, ncalls, ndeliv, nresp, ndup, ndrop>>
 
 RequestClosed(c) ==
   /\ cpc[c] = "closed" /\ cn[c] < MaxReq
   /\ cn' = [cn EXCEPT ![c] = @ + 1]
   /\ cres' = [cres EXCEPT ![c] = Append(@, [r |-> "closed", key |-> NoKey])]
   /\ obs' = [a |-> "RequestClosed", c |-> c, n |-> cn[c] + 1, r |-> "closed", st |-> Proj(qnet, hs, rnet, ncalls)]
-  /\ UNCHANGED <<nid, qnet, hs, rnet, cq, cpc, ncalls, ndeliv, fin, njunk, ndup, ndrop, nclose>>
+  /\ UNCHANGED <<qnet, hs, rnet, cq, cpc, jk, ncalls, ndeliv, nresp, ndup, ndrop, nclose>>
 
 \* ------------------------------- outside host ----------------------------
 Junk(k) ==
-  /\ k \in JunkKinds /\ njunk < MaxJunk
-  /\ njunk' = njunk + 1 /\ nid' = nid + 1
-  /\ qnet' = qnet \cup {[id |-> nid + 1, src |-> X, kind |-> k, key |-> K(X, njunk + 1)]}
-  /\ obs' = [a |-> "Junk", kind |-> k, new |-> nid + 1]
-  /\ UNCHANGED <<hs, rnet, cq, cpc, cn, cres, ncalls, ndeliv, fin, ndup, ndrop, nclose>>
+  /\ k \in JunkKinds /\ Len(jk) < MaxJunk
+  /\ jk' = Append(jk, k)
+  /\ qnet' = qnet (+) One([src |-> X, kind |-> k, key |-> K(X, Len(jk) + 1)])
+  /\ obs' = [a |-> "Junk", kind |-> k, key |-> K(X, Len(jk) + 1)]
+  /\ UNCHANGED <<hs, rnet, cq, cpc, cn, cres, ncalls, ndeliv, nresp, ndup, ndrop, nclose>>
 
 \* ------------------------------- responder -------------------------------
 DeliverQ(d) ==
-  /\ d \in qnet
+  /\ BagIn(d, qnet)
   /\ LET next == IF d.kind \in CbKinds THEN "cb" ELSE IF d.kind \in ErrKinds THEN "send" ELSE "none"
-         q2 == qnet \ {d}
-         h2 == IF next = "none" THEN hs ELSE hs \cup {[id |-> d.id, src |-> d.src, kind |-> d.kind, key |-> d.key, pc |-> next]} IN
+         q2 == qnet (-) One(d)
+         h2 == IF next = "none" THEN hs ELSE hs (+) One([src |-> d.src, kind |-> d.kind, key |-> d.key, pc |-> next]) IN
      /\ qnet' = q2 /\ hs' = h2
      /\ ndeliv' = [ndeliv EXCEPT ![d.key] = @ + 1]
-     /\ fin' = IF next = "none" THEN fin \cup {[qid |-> d.id, kind |-> d.kind, nresp |-> 0]} ELSE fin
-     /\ obs' = [a |-> "DeliverQ", id |-> d.id, next |-> next, st |-> Proj(q2, h2, rnet, ncalls)]
-  /\ UNCHANGED <<nid, rnet, cq, cpc, cn, cres, ncalls, njunk, ndup, ndrop, nclose>>
+     /\ obs' = [a |-> "DeliverQ", src |-> d.src, kind |-> d.kind, key |-> d.key, next |-> next, st |-> Proj(q2, h2, rnet, ncalls)]
+  /\ UNCHANGED <<rnet, cq, cpc, cn, cres, jk, ncalls, nresp, ndup, ndrop, nclose>>
 
 Process(h) ==
-  /\ h \in hs /\ h.pc = "cb"
+  /\ BagIn(h, hs) /\ h.pc = "cb"
   /\ LET nc2 == [ncalls EXCEPT ![h.key] = @ + 1]
          next == IF h.kind = "cberr" THEN "none" ELSE "send"
-         h2 == IF next = "none" THEN hs \ {h} ELSE (hs \ {h}) \cup {[h EXCEPT !.pc = "send"]} IN
+         h2 == IF next = "none" THEN hs (-) One(h) ELSE (hs (-) One(h)) (+) One([h EXCEPT !.pc = "send"]) IN
      /\ ncalls' = nc2 /\ hs' = h2
-     /\ fin' = IF next = "none" THEN fin \cup {[qid |-> h.id, kind |-> h.kind, nresp |-> 0]} ELSE fin
-     /\ obs' = [a |-> "Process", id |-> h.id, saw |-> h.key, next |-> next, st |-> Proj(qnet, h2, rnet, nc2)]
-  /\ UNCHANGED <<nid, qnet, rnet, cq, cpc, cn, cres, ndeliv, njunk, ndup, ndrop, nclose>>
+     /\ obs' = [a |-> "Process", src |-> h.src, kind |-> h.kind, key |-> h.key, saw |-> h.key, next |-> next,
+                st |-> Proj(qnet, h2, rnet, nc2)]
+  /\ UNCHANGED <<qnet, rnet, cq, cpc, cn, cres, jk, ndeliv, nresp, ndup, ndrop, nclose>>
 
 Send(h) ==
-  /\ h \in hs /\ h.pc = "send"
-  /\ LET r2 == rnet \cup {[id |-> nid + 1, dst |-> h.src, rc |-> RC(h.kind), key |-> h.key, qid |-> h.id]}
-         h2 == hs \ {h} IN
-     /\ nid' = nid + 1 /\ rnet' = r2 /\ hs' = h2
-     /\ fin' = fin \cup {[qid |-> h.id, kind |-> h.kind, nresp |-> 1]}
-     /\ obs' = [a |-> "Send", id |-> h.id, new |-> nid + 1, dst |-> h.src, rc |-> RC(h.kind), st |-> Proj(qnet, h2, r2, ncalls)]
-  /\ UNCHANGED <<qnet, cq, cpc, cn, cres, ncalls, ndeliv, njunk, ndup, ndrop, nclose>>
+  /\ BagIn(h, hs) /\ h.pc = "send"
+  /\ LET r2 == rnet (+) One([dst |-> h.src, rc |-> RC(h.kind), key |-> h.key])
+         h2 == hs (-) One(h) IN
+     /\ rnet' = r2 /\ hs' = h2
+     /\ nresp' = [nresp EXCEPT ![h.key] = @ + 1]
+     /\ obs' = [a |-> "Send", src |-> h.src, kind |-> h.kind, key |-> h.key, dst |-> h.src, rc |-> RC(h.kind),
+                st |-> Proj(qnet, h2, r2, ncalls)]
+  /\ UNCHANGED <<qnet, cq, cpc, cn, cres, jk, ncalls, ndeliv, ndup, ndrop, nclose>>
 
 \* ------------------------------- network ---------------------------------
 DropQ(d) ==
-  /\ d \in qnet /\ ndrop < MaxDrop
-  /\ ndrop' = ndrop + 1 /\ qnet' = qnet \ {d}
-  /\ obs' = [a |-> "DropQ", id |-> d.id]
-  /\ UNCHANGED <<nid, hs, rnet, cq, cpc, cn, cres, ncalls, ndeliv, fin, njunk, ndup, nclose>>
+  /\ BagIn(d, qnet) /\ ndrop < MaxDrop
+  /\ ndrop' = ndrop + 1 /\ qnet' = qnet (-) One(d)
+  /\ obs' = [a |-> "DropQ", src |-> d.src, kind |-> d.kind, key |-> d.key]
+  /\ UNCHANGED <<hs, rnet, cq, cpc, cn, cres, jk, ncalls, ndeliv, nresp, ndup, nclose>>
 
 DupQ(d) ==
-  /\ d \in qnet /\ ndup < MaxDup
-  /\ ndup' = ndup + 1 /\ nid' = nid + 1
-  /\ qnet' = qnet \cup {[d EXCEPT !.id = nid + 1]}
-  /\ obs' = [a |-> "DupQ", id |-> d.id, new |-> nid + 1]
-  /\ UNCHANGED <<hs, rnet, cq, cpc, cn, cres, ncalls, ndeliv, fin, njunk, ndrop, nclose>>
+  /\ BagIn(d, qnet) /\ ndup < MaxDup
+  /\ ndup' = ndup + 1
+  /\ qnet' = qnet (+) One(d)
+  /\ obs' = [a |-> "DupQ", src |-> d.src, kind |-> d.kind, key |-> d.key]
+  /\ UNCHANGED <<hs, rnet, cq, cpc, cn, cres, jk, ncalls, ndeliv, nresp, ndrop, nclose>>
 
 \* "x" captured a client's query and sends a copy from its own address
 ReplayQ(d) ==
-  /\ d \in qnet /\ d.src \in Clients /\ ndup < MaxDup
-  /\ ndup' = ndup + 1 /\ nid' = nid + 1
-  /\ qnet' = qnet \cup {[d EXCEPT !.id = nid + 1, !.src = X]}
-  /\ obs' = [a |-> "ReplayQ", id |-> d.id, new |-> nid + 1]
-  /\ UNCHANGED <<hs, rnet, cq, cpc, cn, cres, ncalls, ndeliv, fin, njunk, ndrop, nclose>>
+  /\ BagIn(d, qnet) /\ d.src \in Clients /\ ndup < MaxDup
+  /\ ndup' = ndup + 1
+  /\ qnet' = qnet (+) One([d EXCEPT !.src = X])
+  /\ obs' = [a |-> "ReplayQ", src |-> d.src, kind |-> d.kind, key |-> d.key]
+  /\ UNCHANGED <<hs, rnet, cq, cpc, cn, cres, jk, ncalls, ndeliv, nresp, ndrop, nclose>>
 
 DeliverR(d) ==
-  /\ d \in rnet
-  /\ rnet' = rnet \ {d}
+  /\ BagIn(d, rnet)
+  /\ rnet' = rnet (-) One(d)
   /\ cq' = IF d.dst \in Clients /\ cpc[d.dst] # "closed"
              THEN [cq EXCEPT ![d.dst] = Append(@, [rc |-> d.rc, key |-> d.key])] ELSE cq
-  /\ obs' = [a |-> "DeliverR", id |-> d.id, dst |-> d.dst]
-  /\ UNCHANGED <<nid, qnet, hs, cpc, cn, cres, ncalls, ndeliv, fin, njunk, ndup, ndrop, nclose>>
+  /\ obs' = [a |-> "DeliverR", dst |-> d.dst, rc |-> d.rc, key |-> d.key]
+  /\ UNCHANGED <<qnet, hs, cpc, cn, cres, jk, ncalls, ndeliv, nresp, ndup, ndrop, nclose>>
 
 DropR(d) ==
-  /\ d \in rnet /\ ndrop < MaxDrop
-  /\ ndrop' = ndrop + 1 /\ rnet' = rnet \ {d}
-  /\ obs' = [a |-> "DropR", id |-> d.id]
-  /\ UNCHANGED <<nid, qnet, hs, cq, cpc, cn, cres, ncalls, ndeliv, fin, njunk, ndup, nclose>>
+  /\ BagIn(d, rnet) /\ ndrop < MaxDrop
+  /\ ndrop' = ndrop + 1 /\ rnet' = rnet (-) One(d)
+  /\ obs' = [a |-> "DropR", dst |-> d.dst, rc |-> d.rc, key |-> d.key]
+  /\ UNCHANGED <<qnet, hs, cq, cpc, cn, cres, jk, ncalls, ndeliv, nresp, ndup, nclose>>
 
 \* duplicate a response, possibly re-addressed to another client
 DupR(d, c) ==
-  /\ d \in rnet /\ c \in Clients /\ ndup < MaxDup
-  /\ ndup' = ndup + 1 /\ nid' = nid + 1
-  /\ rnet' = rnet \cup {[d EXCEPT !.id = nid + 1, !.dst = c]}
-  /\ obs' = [a |-> "DupR", id |-> d.id, new |-> nid + 1, dst |-> c]
-  /\ UNCHANGED <<qnet, hs, cq, cpc, cn, cres, ncalls, ndeliv, fin, njunk, ndrop, nclose>>
+  /\ BagIn(d, rnet) /\ c \in Clients /\ ndup < MaxDup
+  /\ ndup' = ndup + 1
+  /\ rnet' = rnet (+) One([d EXCEPT !.dst = c])
+  /\ obs' = [a |-> "DupR", dst |-> d.dst, rc |-> d.rc, key |-> d.key, to |-> c]
+  /\ UNCHANGED <<qnet, hs, cq, cpc, cn, cres, jk, ncalls, ndeliv, nresp, ndrop, nclose>>
 
 ClientStep(c) == Return(c) \/ TimeoutRet(c)
-ServerStep == (\E d \in qnet : DeliverQ(d)) \/ (\E h \in hs : Process(h) \/ Send(h))
-NetStep == \E d \in rnet : DeliverR(d)
+ServerStep == (\E d \in BagToSet(qnet) : DeliverQ(d)) \/ (\E h \in BagToSet(hs) : Process(h) \/ Send(h))
+NetStep == \E d \in BagToSet(rnet) : DeliverR(d)
 
 Next == \/ \E c \in Clients : Request(c) \/ ClientStep(c) \/ Close(c) \/ RequestClosed(c)
         \/ \E k \in JunkKinds : Junk(k)
         \/ ServerStep \/ NetStep
-        \/ \E d \in qnet : DropQ(d) \/ DupQ(d) \/ ReplayQ(d)
-        \/ \E d \in rnet : DropR(d) \/ (\E c \in Clients : DupR(d, c))
+        \/ \E d \in BagToSet(qnet) : DropQ(d) \/ DupQ(d) \/ ReplayQ(d)
+        \/ \E d \in BagToSet(rnet) : DropR(d) \/ (\E c \in Clients : DupR(d, c))
 
 Spec == Init /\ [][Next]_vars
 \* fairness of everything that is not a fault or an environment choice
 LiveSpec == Spec /\ WF_vars(ServerStep) /\ WF_vars(NetStep) /\ \A c \in Clients : WF_vars(ClientStep(c))
 
-Terminal == ~ENABLED Next
+\* nothing left to do (used by the behaviour generator to emit behaviours that end early)
+Terminal == /\ qnet = EmptyBag /\ hs = EmptyBag /\ rnet = EmptyBag
+            /\ \A c \in Clients : /\ ~(cpc[c] = "wait" /\ cq[c] # <<>>)
+                                  /\ (cpc[c] = "wait" \/ cn[c] = MaxReq)
+            /\ (Len(jk) = MaxJunk \/ JunkKinds = {})
 
 \* ------------------------------ properties ------------------------------
-TypeOK == /\ \A d \in qnet : d.src \in Srcs /\ d.kind \in AllKinds /\ d.key \in AllKeys
-          /\ \A h \in hs : h.pc \in {"cb", "send"} /\ (h.pc = "cb" => h.kind \in CbKinds)
-          /\ \A d \in rnet : d.dst \in Srcs
+TypeOK == /\ \A d \in BagToSet(qnet) : d.src \in Srcs /\ d.kind \in AllKinds /\ d.key \in AllKeys
+          /\ \A h \in BagToSet(hs) : h.pc \in {"cb", "send"} /\ (h.pc = "cb" => h.kind \in CbKinds)
+          /\ \A d \in BagToSet(rnet) : d.dst \in Srcs /\ d.key \in AllKeys
           /\ \A c \in Clients : cpc[c] \in {"idle", "wait", "closed"} /\ cn[c] \in 0..MaxReq
 
 \* every response a client accepts is the response to ITS OWN request: request i of client c
@@ -290,16 +300,16 @@ ResultsInOrder == \A c \in Clients : Len(cres[c]) = cn[c] - (IF cpc[c] = "wait" 
 OkImpliesProcessed == \A c \in Clients : \A i \in DOMAIN cres[c] : cres[c][i].r = "ok" => ncalls[K(c, i)] >= 1
 
 \* the callback runs at most once per query copy received, and only for queries that carry a valid Noise message
-CallbackBound == \A k \in AllKeys : ncalls[k] <= ndeliv[k]
+CallbackBound == \A k \in AllKeys : /\ ncalls[k] <= ndeliv[k]
+                                    /\ (ncalls[k] > 0 => KindOf(k) \in CbKinds)
 
-\* the responder answers every query exactly as often as its class demands (once / never), never twice
-AnsweredOnce == /\ \A f \in fin : f.nresp = Expected(f.kind)
-                /\ \A f, g \in fin : f.qid = g.qid => f = g
-                /\ \A d \in rnet : \E f \in fin : f.nresp = 1 /\ f.qid = d.qid
+\* the responder answers every query copy exactly as often as its class demands (once / never): per key,
+\* responses sent = (copies received - copies still being handled) * expected
+InProgress(k) == LET S == {h \in BagToSet(hs) : h.key = k} IN SumF([h \in S |-> CopiesIn(h, hs)], S)
+AnsweredOnce == \A k \in AllKeys : ndeliv[k] > 0 => nresp[k] = (ndeliv[k] - InProgress(k)) * Expected(KindOf(k))
 
-\* responses go to the sender of the query they answer, carrying the rcode of its class
-ResponseToSender == [][\A d \in rnet' \ rnet : (obs'.a = "Send") =>
-                          \E h \in hs : h.id = d.qid /\ d.dst = h.src /\ d.key = h.key /\ d.rc = RC(h.kind)]_vars
+\* responses in flight are accounted for: never more copies on the wire than sent + duplicated
+ResponsesAccounted == BagCardinality(rnet) <= SumF(nresp, AllKeys) + ndup
 
 \* as found: a request fails with an error only when the network duplicated something
 ErrNeedsDup == (\E c \in Clients : \E i \in DOMAIN cres[c] : cres[c][i].r = "err") => ndup > 0
